@@ -39,11 +39,12 @@ CONSTANTS
   MaxLen,        \* bound on the number of actions
   MaxSent,       \* bound on the number of packets protected in a behaviour
   Watermark,     \* context-table high-water mark (32 in the code)
+  RtcpTop,       \* highest SRTCP index (2^31 - 1 in reality): after it the key is exhausted (RFC 3711 9.2)
   WithRtcp, WithTick,
   RtpForgeKinds, RtcpForgeKinds,   \* forgery classes explored
   ForgeOffsets,  \* forged sequence numbers, relative to the receiver's highest (and 0 when it has none)
   ForgeReps,     \* a forgery is presented this many times in a row (failure counters, rate-limited paths)
-  Deviations,    \* subset of {"EvictLosesState", "RtcpIndexBeforeAuth", "TableBeforeAuth", "RtpUpdateBeforeAuth", "EstimateSlack"}
+  Deviations,    \* subset of {"EvictLosesState", "RtcpIndexOverflow", "RtcpIndexBeforeAuth", "TableBeforeAuth", "RtpUpdateBeforeAuth", "EstimateSlack"}
   Props          \* listed properties whose rules are switched on: subset of {"C04", "C05", "EXT"}
 
 VARIABLES
@@ -135,11 +136,11 @@ RecvRtp(t, k, genuine, seq, roc) ==
 
 \* SRTCP carries its index in clear: no estimate; the receiver remembers the highest index seen
 RecvRtcp(t, k, genuine, idx) ==
-  LET ok  == genuine
+  LET ok  == genuine /\ idx <= RtcpTop        \* beyond the top the sender's keystream index is not the one on the wire
       pre == IF ok \/ "TableBeforeAuth" \in Deviations THEN Admit(t, k) ELSE t
       upd == ok \/ ("RtcpIndexBeforeAuth" \in Deviations /\ pre[k].on)
   IN [ok |-> ok,
-      t  |-> IF upd THEN [pre EXCEPT ![k].rtcp = MaxOf(@, idx)] ELSE pre]
+      t  |-> IF upd THEN [pre EXCEPT ![k].rtcp = MaxOf(@, idx % (RtcpTop + 1))] ELSE pre]
 
 ---------------------------------------------------------------------------
 NoStep == [op |-> "init", proto |-> "", ssrc |-> 0, idx |-> -1, kind |-> "", x |-> -1,
@@ -190,16 +191,23 @@ Protect(s, i) ==
   /\ sHi' = [sHi EXCEPT ![s] = MaxOf(@, i)]
   /\ UNCHANGED <<sRtcp, got, rx, start, ideal>>
 
+\* protect_rtcp. Once the 31-bit SRTCP index space of a stream is used up the key is exhausted: the intended sender
+\* refuses (the application must re-key). Deviation "RtcpIndexOverflow" (pinned code): it goes on; the index it
+\* encrypts with no longer fits the 31-bit field the receiver reads, so the packet cannot be decoded.
 ProtectRtcp(s) ==
   /\ WithRtcp
   /\ Cardinality(sent) < MaxSent
   /\ LET t1 == AdmitIn(tx, s, Ssrcs)
          w  == t1[s].rtcp + 1
          n  == sRtcp[s] + 1
-     IN /\ sRtcp' = [sRtcp EXCEPT ![s] = n]
-        /\ tx' = [t1 EXCEPT ![s].rtcp = w]
-        /\ sent' = sent \cup {Pkt("rtcp", s, n, w)}
-        /\ Do([NoStep EXCEPT !.op = "protect", !.proto = "rtcp", !.ssrc = s, !.idx = n, !.x = w, !.est = w])
+     IN IF w > RtcpTop /\ "RtcpIndexOverflow" \notin Deviations
+        THEN /\ tx' = t1
+             /\ Do([NoStep EXCEPT !.op = "protect", !.proto = "rtcp", !.ssrc = s, !.idx = n, !.kind = "refused"])
+             /\ UNCHANGED <<sRtcp, sent>>
+        ELSE /\ sRtcp' = [sRtcp EXCEPT ![s] = n]
+             /\ tx' = [t1 EXCEPT ![s].rtcp = w]
+             /\ sent' = sent \cup {Pkt("rtcp", s, n, w)}
+             /\ Do([NoStep EXCEPT !.op = "protect", !.proto = "rtcp", !.ssrc = s, !.idx = n, !.x = w, !.est = w])
   /\ UNCHANGED <<sHi, got, rx, start, ideal>>
 
 \* the network hands a genuine packet to the receiver (first time or again)
